@@ -180,7 +180,15 @@ func (c *Ctx) HavocAll(st *State, keepGhost bool) {
 		if strings.HasPrefix(fam, "IT|") {
 			continue
 		}
+		old := st.arrays[fam]
 		c.HavocFam(st, fam)
+		// non-escaping locals of the executing function cannot be reached by anybody else
+		if strings.HasPrefix(fam, "H|") || strings.HasPrefix(fam, "C|") || strings.HasPrefix(fam, "E|") {
+			nw := st.arrays[fam]
+			for _, l := range st.locals {
+				st.Assume(T(SBool, "(= (select %s %s) (select %s %s))", nw.S, l, old.S, l))
+			}
+		}
 	}
 	st.epoch++
 	// families not yet materialised will be created fresh after the epoch bump
@@ -324,6 +332,10 @@ func (c *Ctx) rootStore(st *State, l *Loc, v Term) {
 	case LocGlobal:
 		fam, sort := c.famGlobal(l.Global)
 		c.Arr(st, fam, sort)
+		if len(v.S) < 40 {
+			st.arrays[fam] = v
+			return
+		}
 		name := c.Reg.Fresh("g." + l.Global.Name())
 		t := st.Declare(name, sort)
 		st.Assume(Eq(t, v))
